@@ -223,23 +223,42 @@ func (w *World) finalOracles() {
 		}
 		// C07: everything the framework created is closed
 		if left := w.k.OpenFds("framework"); len(left) > 0 {
-			// classify: an accepted socket whose registration was still queued
-			// when its loop exited (never opened) is a different finding from
-			// any other descriptor left open
+			// classify: a socket whose registration was still queued when its loop
+			// exited (never opened) is a different finding from any other descriptor
+			// left open; among those, accepted sockets and duplicates made by
+			// Register/Enroll are told apart, and a duplicate left behind by a call
+			// that *answered* (with an error) is not explained by a lost registration
 			kinds, class := "", map[string]bool{}
+			dupNever := 0
 			for _, fd := range left {
 				kd := w.k.KindOf(fd)
-				kinds += fmt.Sprintf(" %d(%s)", fd, kd)
+				kinds += fmt.Sprintf(" %d(%s,%s)", fd, kd, w.k.OriginOf(fd))
 				c := kd
 				if kd == "stream" {
-					c = "stream-never-opened"
+					c = "accepted-never-opened"
+					if w.k.OriginOf(fd) == "dup" {
+						c = "dup-never-opened"
+						dupNever++
+					}
 					for _, cs := range w.conns {
 						if cs != nil && cs.sock == w.k.SockOfFd(fd) {
 							c = "stream-opened"
+							if w.k.OriginOf(fd) == "dup" {
+								dupNever--
+							}
 						}
 					}
 				}
 				class[c] = true
+			}
+			if lost := len(w.regLost) + w.clientCalls; dupNever > lost {
+				delete(class, "dup-never-opened")
+				class["dup-after-answer"] = true
+				kinds += fmt.Sprintf(" (%d duplicates never opened, %d registration calls without an answer)", dupNever, lost)
+			}
+			if class["accepted-never-opened"] && class["dup-never-opened"] {
+				// one root cause (registration queued for a loop that has exited): one key
+				delete(class, "dup-never-opened")
 			}
 			var cl []string
 			for c := range class {
@@ -248,7 +267,7 @@ func (w *World) finalOracles() {
 			sort.Strings(cl)
 			// (a registration queued for a loop that exits is the same finding whether the
 			// loop exits because of a shutdown or because the engine failed to start)
-			if w.startFault() && strings.Join(cl, "+") != "stream-never-opened" {
+			if k := strings.Join(cl, "+"); w.startFault() && k != "accepted-never-opened" && k != "dup-never-opened" {
 				w.violate("C07", "leak-after-failed-start/"+strings.Join(cl, "+"), "Run returned %v (injected: %s) but the framework still holds descriptors:%s", w.runErr, faultDesc(w.p.Faults), kinds)
 			} else {
 				w.violate("C07", "leak/"+strings.Join(cl, "+"), "Run returned but the framework still holds descriptors:%s", kinds)
